@@ -11,5 +11,5 @@ CONSTANTS
   Spurious = FALSE
   Interrupts = FALSE
   Bug = "noskip"
-INVARIANTS ViewIsFunctionOfMoved StreamExact ReadWriteComplete RecvSendBounds NoHangPastTimeout WaitsOnlyForData
+INVARIANTS WaitsOnlyForData
 CHECK_DEADLOCK FALSE
